@@ -135,6 +135,14 @@ impl BasicHeader {
             });
         }
 
+        // Block 1 consists of ASCII letters and digits (the fixed byte offsets below rely on it)
+        if !block1.is_ascii() {
+            return Err(ParseError::InvalidBlockStructure {
+                block: "1".to_string(),
+                message: "Block 1 must contain only ASCII characters".to_string(),
+            });
+        }
+
         let application_id = block1[0..1].to_string();
         let service_id = block1[1..3].to_string();
         let raw_logical_terminal = block1[3..15].to_string();
@@ -382,6 +390,14 @@ impl ApplicationHeader {
                     "Block 2 too short: expected at least 4 characters, got {}",
                     block2.len()
                 ),
+            });
+        }
+
+        // Block 2 consists of ASCII letters and digits (the fixed byte offsets below rely on it)
+        if !block2.is_ascii() {
+            return Err(ParseError::InvalidBlockStructure {
+                block: "2".to_string(),
+                message: "Block 2 must contain only ASCII characters".to_string(),
             });
         }
 
